@@ -168,14 +168,16 @@ def configs(kind: str, rng: Rng, thorough: bool, n_quick: int) -> List[dict]:
     return out
 
 
-def sweep(kind: str, rng: Rng, thorough: bool, n_quick_cfg: int, n_pairs_quick: int) -> dict:
-    """Family (b).  Returns counts, the stage x outcome histogram and the list of raises."""
+def sweep(kind: str, rng: Rng, thorough: bool, n_quick_cfg: int, n_pairs_quick: int, shard: Tuple[int, int] = (0, 1)) -> dict:
+    """Family (b).  Returns counts, the stage x outcome histogram and the list of raises.  `shard = (i, n)`: this call takes the
+    configurations whose index is i modulo n (the sweep of the thorough tier is spread over several worker processes)."""
     raises: List[dict] = []
     hist: Dict[str, int] = {}
     cases = steps = 0
     not_succeeding: List[str] = []
     max_steps = 90
     cfgs = configs(kind, rng, thorough, n_quick_cfg)
+    cfgs = [c for i, c in enumerate(cfgs) if i % shard[1] == shard[0]]
     for ci, case in enumerate(cfgs):
         base = drive(kind, case, {}, max_steps)
         cases += 1
@@ -201,7 +203,7 @@ def sweep(kind: str, rng: Rng, thorough: bool, n_quick_cfg: int, n_pairs_quick: 
             for oc in alphabet:
                 singles.append({k: oc})
         pairs = []
-        if thorough and ci < 8:
+        if thorough and ci < max(1, 8 // shard[1]):
             for i, j in itertools.combinations(range(n), 2):
                 for oi in OUTCOMES[1:3]:
                     for oj in OUTCOMES[1:4]:
